@@ -165,6 +165,7 @@ def run(repo, rep, tier):
     obj = repo.module(OBJ)
     mof = repo.module(MOF)
     _r7_instance_values(repo, rep)
+    _r8_symbols_consumed(repo, rep)
     # ---- R6 ---------------------------------------------------------------
     for cname in MOF_CLASSES:
         cls = repo.cls(OBJ, cname)
@@ -593,3 +594,116 @@ def _r7_instance_values(repo, rep):
                         'recompile to the same instance'
                         % (norm(copies[var]), norm(st), var,
                            ' / '.join(conds[-3:]) or 'straight line'))
+
+
+def grammar_productions(mof):
+    """{action name: (lhs, [alternative symbol lists], Func)} from the
+    docstrings of the p_* grammar actions"""
+    prods = {}
+    for n, f in mof.functions.items():
+        if not n.startswith('p_') or n == 'p_error':
+            continue
+        doc = ast.get_docstring(f.node, clean=False) or ''
+        if ':' not in doc:
+            continue
+        lhs, rhs = doc.split(':', 1)
+        prods[n] = (lhs.strip(), [a.split() for a in rhs.split('|')], f)
+    return prods
+
+
+def _r8_symbols_consumed(repo, rep):
+    """C08.R8: a grammar action reads the semantic value of every
+    value-carrying symbol of each of its alternatives (on a branch that is
+    compatible with that alternative's length).  A symbol that is parsed
+    but not read is silently dropped from the compiled object - e.g. the
+    `array` size of one of the four sibling parameter rules - although
+    tomof() writes it."""
+    import re as _re
+    from ..cfg import stmt_facts, GuardWalker
+    r8 = rep.rule('C08.R8', 'every value-carrying grammar symbol is read by '
+                  'its action')
+    mof = repo.module(MOF)
+    prods = grammar_productions(mof)
+    if len(prods) < 60:
+        raise AnalysisError('only %d grammar actions found' % len(prods))
+    by_lhs = {}
+    for n, (lhs, alts, f) in prods.items():
+        by_lhs.setdefault(lhs, []).append(f)
+
+    def carries(sym):
+        if sym.startswith("'"):
+            return False
+        if sym in by_lhs:
+            for f in by_lhs[sym]:
+                for a in walk_no_nested(f.node):
+                    if isinstance(a, ast.Assign) and \
+                            norm(a.targets[0]) == 'p[0]' and \
+                            not isinstance(a.value, ast.Constant):
+                        return True
+            return False
+        return sym[0].islower()      # value tokens; keywords are upper case
+
+    def compat(lens, n1):
+        for op, v, q in lens:
+            r = {'==': n1 == v, '!=': n1 != v, '>': n1 > v, '>=': n1 >= v,
+                 '<': n1 < v, '<=': n1 <= v}[op]
+            if r != q:
+                return False
+        return True
+    for n, (lhs, alts, f) in sorted(prods.items()):
+        r8.functions.add(f.fq)
+        reads = {}
+        generic = False
+        for st, (facts, _t) in stmt_facts(f.node).items():
+            if isinstance(st, (ast.If, ast.While)):
+                exprs = [st.test]
+            elif isinstance(st, ast.For):
+                exprs = [st.iter]
+            elif isinstance(st, (ast.Try, ast.With)):
+                exprs = []
+            else:
+                exprs = [st]
+            lens = set()
+            for t, pol in facts:
+                for a, q in GuardWalker._atoms(t, pol):
+                    m = _re.fullmatch(r'len\(p\) (==|!=|>|>=|<|<=) (\d+)',
+                                      norm(a))
+                    if m:
+                        lens.add((m.group(1), int(m.group(2)), q))
+            for e in exprs:
+                for x in ast.walk(e):
+                    if isinstance(x, ast.Subscript) and \
+                            norm(x.value) == 'p' and \
+                            isinstance(x.ctx, ast.Load):
+                        if isinstance(x.slice, ast.Constant) and \
+                                isinstance(x.slice.value, int):
+                            reads.setdefault(x.slice.value, []).append(lens)
+                        else:
+                            generic = True
+                    elif isinstance(x, ast.Call) and any(
+                            isinstance(a, ast.Name) and a.id == 'p'
+                            for a in x.args) and \
+                            (dotted(x.func) or '') in ('list', 'tuple',
+                                                       'len') and \
+                            dotted(x.func) != 'len':
+                        generic = True
+        for alt in alts:
+            n1 = len(alt) + 1
+            for k, sym in enumerate(alt, 1):
+                if not carries(sym):
+                    continue
+                r8.sites += 1
+                ok = generic or any(compat(l, n1) for l in reads.get(k, []))
+                r8.ob(ok, '%s|%s|%d' % (n, ' '.join(alt), k))
+                if not ok:
+                    rep.finding(r8, n, '%s : %s' % (lhs, ' '.join(alt)),
+                                'p[%d] %s' % (k, sym), MOF, f.node.lineno,
+                                'the value of symbol %s (p[%d]) of the '
+                                'alternative "%s" is never read by the '
+                                'action: what the MOF text says there is '
+                                'dropped from the compiled object, so MOF '
+                                'written by tomof() does not recompile to '
+                                'the same object' % (sym, k, ' '.join(alt)))
+    if r8.sites < 150:
+        raise AnalysisError('C08.R8: only %d value-carrying symbols'
+                            % r8.sites)
